@@ -8,7 +8,7 @@ export GOFLAGS=-mod=mod GOPROXY=off GOSUMDB=off GOTOOLCHAIN=local; unset GOWORK
 IDS="C01 C02 C03 C04 C05 C06 C08 C09 C10 C11 C12 C13 C14 C15 C16 C17 C18 C19 C20"
 PATCHES=${@:-$(ls seeded/*/patch.diff mutants/*.diff)}
 export MUTW=160
-printf "%s\n" $PATCHES | xargs -P 14 -I{} sh -c "tools/mutant.sh {} $IDS 2>&1" > seeded/MATRIX.raw
+printf "%s\n" $PATCHES | xargs -P 14 -I{} sh -c "LCV_NOBUILD=1 tools/mutant.sh {} $IDS 2>&1" > seeded/MATRIX.raw
 python3 - <<'PY'
 import re,collections
 rows=collections.OrderedDict()
